@@ -58,7 +58,7 @@ func hasProp(ps []string, p string) bool {
 
 // contractServes: does any clause of ct serve property p?
 func contractServes(ct *Contract, p string) bool {
-	if hasProp(ct.Props, p) {
+	if hasProp(ct.Props, p) || hasProp(ct.SiteProps, p) {
 		return true
 	}
 	for _, c := range ct.Requires {
@@ -136,6 +136,8 @@ func cmdCheck(args []string) int {
 	noteSet := map[string]bool{}
 	usedExt := map[string]bool{}
 	usedCt := map[string]bool{}
+	var assumedCts []string
+	var unverified []string
 	for _, ct := range e.allCts {
 		f := e.ctFunc[ct]
 		if f == nil {
@@ -148,6 +150,14 @@ func cmdCheck(args []string) int {
 			}
 		}
 		if !serves {
+			continue
+		}
+		if ct.hasMode("unverified") {
+			unverified = append(unverified, funcKey(f)+": "+ct.Modes["unverified"])
+			continue
+		}
+		if ct.hasMode("assumed") {
+			assumedCts = append(assumedCts, funcKey(f)+" ("+ct.Modes["assumed"]+")")
 			continue
 		}
 		fv := e.verifyFunc(f, ct)
@@ -306,6 +316,19 @@ func cmdCheck(args []string) int {
 		if strings.Contains(k, ".Object.") || strings.Contains(k, ".Iterator.") {
 			assumed = append(assumed, "interface contract "+k+" assumed for implementations outside /repo (implementations in /repo are proved against their own contracts)")
 		}
+	}
+	for k := range usedCt {
+		for _, c2 := range e.allCts {
+			if f2 := e.ctFunc[c2]; f2 != nil && funcKey(f2) == k && c2.hasMode("assumed") {
+				assumed = append(assumed, "assumed (unverified) contract on "+k+": "+c2.Modes["assumed"])
+			}
+		}
+	}
+	for _, a := range unverified {
+		assumed = append(assumed, "NOT VERIFIED (sites inside are not covered by this check): "+a)
+	}
+	for _, a := range assumedCts {
+		assumed = append(assumed, "function with assumed contract, body not verified: "+a)
 	}
 	for n := range noteSet {
 		assumed = append(assumed, "abstraction: "+n)
